@@ -23,7 +23,7 @@ TIERS = {
 
 META = {
     "level": "exploration",
-    "rule": ("Each case draws a synthetic image (48-120 px, SIN projection at four sky positions incl. RA wrap and dec -75, "
+    "rule": ("Each case draws a synthetic image (48-120 px, SIN/TAN/ZEA/ARC/STG projection at four sky positions incl. RA wrap and dec -75, "
              "0-40 injected Gaussians: scattered, blended groups, barely-detected 'tiny' islands, negative sources, a grid of "
              "> 20 separated sources, NaN patch, noise or nearly noise-free) and a history of finder operations: blind find "
              "(options drawn: island rows, covariance on/off, max_summits, polarity, clip levels), the same operation repeated "
@@ -263,7 +263,7 @@ def _prior_from_file(ch, out, models, spec, path, comps, o, twin2, history):
 
 def _case_body(ch, out, models, spec, path, o, variant, twin, twin2=None):
     history = ["blind"]
-    out.sample = {"image": {k: spec[k] for k in ("layout", "rows", "cols", "crval", "pix_arcsec", "beam_pix", "noise")},
+    out.sample = {"image": {k: spec[k] for k in ("layout", "rows", "cols", "crval", "proj", "pix_arcsec", "beam_pix", "noise")},
                   "nsources_injected": len(spec["sources"]), "options": dict(o), "history": history}
 
     counter = fm.CallCounter()
